@@ -11,7 +11,7 @@ from sklearn.tree import DecisionTreeRegressor
 
 PROPERTY = "C17"
 RULE = ("Hypothesis draws n in 1..12 (tiny on purpose), alpha in 0.3..2.0, n_estimators 1..60, optional weights, n_jobs in "
-        "{None,1,2}, a global NumPy seed and a query batch. Base = recording regressor: the row id is X[:,0], y and the weight are "
+        "{None,1,2}, a global NumPy seed and a query batch. Base = recording regressor (with or without an integer random_state of its own): the row id is X[:,0], y and the weight are "
         "injective functions of the id, so a mis-aligned (x,y,w) triple or a never-drawn row is visible. Eligibility sub-clause: all "
         "ids must have been drawn whenever a correct uniform sampler would miss one with probability < 1e-12 "
         "(n*((n-1)/n)^draws); otherwise that sub-clause is skipped and the case is trivial for it. Aggregation clause also runs "
@@ -40,7 +40,10 @@ def check_bootstrap(case):
     n, alpha, ne = case["n"], case["alpha"], case["n_estimators"]
     X, y, w = _data(case)
     facts = dict(n=n, alpha=alpha, n_estimators=ne, weights=case["weights"], n_jobs=case["n_jobs"])
-    base = RecordingRegressor(yield_fit=case.get("yield_fit", 0))
+    # the base estimator may itself be seeded (DecisionTreeRegressor(random_state=0) is the usual thing to pass): the resamples are the
+    # meta-estimator's business and stay independent draws
+    base = RecordingRegressor(yield_fit=case.get("yield_fit", 0), random_state=case.get("base_random_state"))
+    facts["base_random_state"] = case.get("base_random_state")
     model = _mod.IntervalRegressor(estimator=base, n_estimators=ne, alpha=alpha, n_jobs=case["n_jobs"])
     np.random.seed(case["seed"])
     r = model.fit(X, y, w) if w is not None else model.fit(X, y)
@@ -68,6 +71,11 @@ def check_bootstrap(case):
             require(np.array_equal(e.seen_w_, w[ii]), "resample:w-misaligned", "model %d" % i, facts)
         drawn.update(ii.tolist())
         draws += m
+    # independent draws: two resamples of m rows out of n coincide with probability n^-m
+    if ne >= 2 and n >= 2 and len(ests[0].seen_X_) * math.log10(n) >= 12:
+        first = ests[0].seen_X_[:, 0].tolist()
+        require(any(e.seen_X_[:, 0].tolist() != first for e in ests[1:]), "resample:all-models-same-rows",
+                "the %d models were all trained on the same resample %r" % (ne, [int(v) for v in first][:12]), facts)
     elig = False
     if n >= 1 and draws > 0:
         miss = n * ((n - 1) / n) ** draws if n > 1 else 0.0
@@ -136,7 +144,7 @@ def _boot_cases(draw, tier="quick"):
     ne = draw(st.one_of(st.integers(1, 60), st.integers(40, 60)))
     return dict(n=n, d=draw(st.integers(1, 3)), alpha=alpha, n_estimators=ne, weights=draw(st.booleans()),
                 n_jobs=draw(st.sampled_from([None, None, 1, 2])), seed=draw(st.integers(0, 2**31 - 1)),
-                yield_fit=draw(st.sampled_from([0, 0, 1])))
+                yield_fit=draw(st.sampled_from([0, 0, 1])), base_random_state=draw(st.sampled_from([None, None, 0, 7, 12345])))
 
 
 @st.composite
